@@ -670,6 +670,9 @@ func (ctx *actorContext) onTerminate(gracefully bool) {
 	if !ctx.status.CompareAndSwap(actorStatusAlive, actorStatusTerminating) {
 		return
 	}
+	// a failed actor that is being stopped is still suspended: let the mailbox drain, from now on every
+	// queued user message becomes a dead letter
+	ctx.deliverySystemMessage(ctx.ref, ctx.ref, ctx.ref, nil, onResumeMailbox)
 	ctx.processMessage(ctx.sender, ctx.ref, onTerminate, false)
 
 	for _, ref := range ctx.children {
